@@ -438,15 +438,16 @@ InjectKeep(st0, s) ==
              pn == NextNode(st0)
              st1 == AddNode([st0 EXCEPT !.nprobe = pid, !.pcre = Append(@, <<st0.cur, st0.callno>>)],
                             [Node("probe", 0) EXCEPT !.a = pid, !.b = s.b, !.c = s.a])
-         IN Push([st1 EXCEPT !.handles = Append(@, 0)], <<Sub(s.a, pn), F1("sethandle", Len(st1.handles) + 1)>>)
+         IN Push([st1 EXCEPT !.handles = Append(@, 0), !.hcre = Append(@, <<st0.cur, st0.callno>>)],
+                 <<Sub(s.a, pn), F1("sethandle", Len(st1.handles) + 1)>>)
     [] s.k = "emit" ->           \* notification (t, v) on hot subject a
          Push(st0, SubjEmit(st0, s.a, s.t, s.v))
     [] s.k = "emitc" ->          \* notification through the stashed subscribers of `create` input a
          Push(st0, HotCalls(st0.hots[s.a], s.t, s.v))
-    [] s.k = "unsub" ->          \* unsubscribe handle a
-         Push(st0, <<Unsub(st0.handles[s.a])>>)
+    [] s.k = "unsub" ->          \* unsubscribe handle a (nothing to do if another thread has not created it yet)
+         IF s.a > Len(st0.handles) THEN [st0 EXCEPT !.ret = <<"noop">>] ELSE Push(st0, <<Unsub(st0.handles[s.a])>>)
     [] s.k = "closed" ->         \* is_closed() on handle a
-         LET c == Closed(st0, st0.handles[s.a]) IN
+         LET c == IF s.a > Len(st0.handles) THEN 1 ELSE Closed(st0, st0.handles[s.a]) IN
          IF c = 2 THEN Busy(st0) ELSE [st0 EXCEPT !.ret = B(c = 1)]
     [] s.k = "squery" -> Push(st0, <<Fr("squery", s.a, "", U, s.b)>>)
     [] s.k = "sretain" -> Push(st0, <<F1("sretain", s.a)>>)
